@@ -195,6 +195,33 @@
 (declare-fun gs.tolower (Int) Str) (declare-fun gs.toupper (Int) Str) (declare-fun gs.replace (Int Int Int Int) Str)
 (declare-fun atoi.ok (Int) Bool) (declare-fun atoi.val (Int) Int)
 (declare-fun f64.ceil (F64) F64) (declare-fun f64.abs (F64) F64) (declare-fun f64.mod (F64 F64) F64)
+; C18: a number value is finite (JSON has no NaN or infinity).  c18.ih is the induction hypothesis of the C18 sweep
+; ("every value received from the caller, from a callee or read from an array or object is finite"); it is a
+; free Boolean, so obligations of other properties do not depend on it.
+(declare-fun f32.isinf (F32) Bool)
+(declare-fun jnum.valid (Int) Bool) ; the text is a number in JSON syntax (what a JSON decoder stores in a json.Number)
+(define-fun val.finite ((v Val)) Bool (and (=> ((_ is VDec) v) (dec.isfin (vdec v)))
+   (=> ((_ is VJNum) v) (jnum.valid (skey (vjnum v))))
+   (=> ((_ is VF64) v) (and (not (f64.isnan (vf64 v))) (not (f64.isinf (vf64 v)))))
+   (=> ((_ is VF32) v) (and (not (f32.isnan (vf32 v))) (not (f32.isinf (vf32 v)))))))
+(declare-const c18.ih Bool)
+; @section decfin f64.of32 dec.abs dec.neg dec.ceil dec.floor dec.off64 dec.off32 dec.parse dec.unmarshal f64.abs f64.ceil f64.neg f64.floor
+; finiteness is preserved by the sign and rounding operations; conversions of finite values are finite; parsing the
+; text of a JSON number succeeds only with a finite result (decimal128 reports out-of-range exponents as errors)
+(assert (forall ((d Dec)) (! (=> (dec.isfin d) (dec.isfin (dec.abs d))) :pattern ((dec.abs d)))))
+(assert (forall ((d Dec)) (! (=> (dec.isfin d) (dec.isfin (dec.neg d))) :pattern ((dec.neg d)))))
+(assert (forall ((d Dec)) (! (=> (dec.isfin d) (dec.isfin (dec.ceil d))) :pattern ((dec.ceil d)))))
+(assert (forall ((d Dec)) (! (=> (dec.isfin d) (dec.isfin (dec.floor d))) :pattern ((dec.floor d)))))
+(assert (forall ((f F64)) (! (=> (and (not (f64.isnan f)) (not (f64.isinf f))) (dec.isfin (dec.off64 f))) :pattern ((dec.off64 f)))))
+(assert (forall ((f F32)) (! (=> (and (not (f32.isnan f)) (not (f32.isinf f))) (dec.isfin (dec.off32 f))) :pattern ((dec.off32 f)))))
+(assert (forall ((f F32)) (! (=> (and (not (f32.isnan f)) (not (f32.isinf f))) (and (not (f64.isnan (f64.of32 f))) (not (f64.isinf (f64.of32 f))))) :pattern ((f64.of32 f)))))
+(assert (forall ((k Int)) (! (=> (and (jnum.valid k) (dec.parseok k)) (dec.isfin (dec.parse k))) :pattern ((dec.parse k)))))
+(assert (forall ((k Int)) (! (=> (dec.unmarshalok k) (dec.isfin (dec.unmarshal k))) :pattern ((dec.unmarshal k)))))
+(assert (forall ((f F64)) (! (=> (and (not (f64.isnan f)) (not (f64.isinf f))) (and (not (f64.isnan (f64.abs f))) (not (f64.isinf (f64.abs f))))) :pattern ((f64.abs f)))))
+(assert (forall ((f F64)) (! (=> (and (not (f64.isnan f)) (not (f64.isinf f))) (and (not (f64.isnan (f64.neg f))) (not (f64.isinf (f64.neg f))))) :pattern ((f64.neg f)))))
+(assert (forall ((f F64)) (! (=> (and (not (f64.isnan f)) (not (f64.isinf f))) (and (not (f64.isnan (f64.ceil f))) (not (f64.isinf (f64.ceil f))))) :pattern ((f64.ceil f)))))
+(assert (forall ((f F64)) (! (=> (and (not (f64.isnan f)) (not (f64.isinf f))) (and (not (f64.isnan (f64.floor f))) (not (f64.isinf (f64.floor f))))) :pattern ((f64.floor f)))))
+; @section core
 (declare-fun gs.units (Str) Int)
 (define-fun gs.whole ((s Str)) Bool (and (= (slo s) 0) (= (shi s) (blen (sbase s)))))
 (define-fun gs.subwindow ((r Str) (s Str)) Bool (and (= (sbase r) (sbase s)) (<= (slo s) (slo r)) (<= (slo r) (shi r)) (<= (shi r) (shi s))))
